@@ -15,9 +15,9 @@ Take(r) == /\ o' = r.o
                          THEN (CHOOSE d \in {r.out[i] : i \in 1 .. Len(r.out)} : d.o = "done").res ELSE outcome
            /\ got' = IF \E i \in 1 .. Len(r.out) : r.out[i].o = "done"
                      THEN (CHOOSE d \in {r.out[i] : i \in 1 .. Len(r.out)} : d.o = "done").val ELSE got
-Start == /\ ~issued /\ issued' = TRUE /\ Take(StartFn(o)) /\ UNCHANGED <<left, sawAfter, respOk, now, stale>>
+Start == /\ ~issued /\ issued' = TRUE /\ Take(StartFn(o, now)) /\ UNCHANGED <<left, sawAfter, respOk, now, stale>>
 Probe(j) == /\ issued /\ o.ph = "probing" /\ left.probe > 0 /\ left' = [left EXCEPT !.probe = 0]
-            /\ Take(ProbeFn(o, j)) /\ UNCHANGED <<issued, sawAfter, respOk, now, stale>>
+            /\ Take(ProbeFn(o, j, now)) /\ UNCHANGED <<issued, sawAfter, respOk, now, stale>>
 Resp(st) == /\ issued /\ o.ph = "sent" /\ left.resp > 0 /\ left' = [left EXCEPT !.resp = 0]
             /\ respOk' = (st = "ok")
             /\ Take(IF o.kind = "scan" /\ o.saw THEN RespScanEarly(o, st) ELSE RespFn(o, st, now))
@@ -33,17 +33,18 @@ Result == /\ left.result > 0 /\ left' = [left EXCEPT !.result = @ - 1]
 Complete(ok) == /\ left.complete > 0 /\ left' = [left EXCEPT !.complete = 0]
                 /\ Take(CompleteFn(o, ok)) /\ UNCHANGED <<issued, sawAfter, respOk, now, stale>>
 Timeout == /\ TimeoutEnabled(o) /\ now' = o.t0 + TimeoutOf(o.kind) /\ Take(TimeoutFn(o)) /\ UNCHANGED <<left, issued, sawAfter, respOk, stale>>
+CmdTimeoutFires == /\ issued /\ CmdTimeoutEnabled(o) /\ now' = o.t0 + CmdTimeout /\ Take(CmdTimeoutFn(o)) /\ UNCHANGED <<left, issued, sawAfter, respOk, stale>>
 Cancel == /\ issued /\ o.ph # "done" /\ Take(CancelFn(o)) /\ UNCHANGED <<left, issued, sawAfter, respOk, now, stale>>
 Next == Start \/ (\E j \in BOOLEAN : Probe(j)) \/ (\E st \in {"ok", "refuse", "notjoined"} : Resp(st))
-        \/ Match \/ Other \/ Result \/ (\E ok \in BOOLEAN : Complete(ok)) \/ Timeout \/ Cancel
+        \/ CmdTimeoutFires \/ Match \/ Other \/ Result \/ (\E ok \in BOOLEAN : Complete(ok)) \/ Timeout \/ Cancel
 Spec == Init /\ [][Next]_vars
 
 (* completes only after both the command succeeded and the matching event arrived after the operation was issued *)
 CompletesOnBoth == (outcome = "ok" /\ o.kind \in {"form", "leave"}) => (respOk /\ sawAfter)
 BringUpOk == (outcome = "ok" /\ o.kind = "bringup") => ((respOk /\ sawAfter) \/ ~respOk)
 (* never misses: a matching event after issue (even before the response) means no timeout *)
-NeverMisses == (outcome = "timeout") => ~sawAfter
+NeverMisses == (outcome = "timeout" /\ respOk) => ~sawAfter
 (* a scan returns exactly the results received between issue and completion, none from before *)
 ScanExact == (outcome = "ok" /\ o.kind = "scan") => \A i \in 1 .. Len(stale) : \A j \in 1 .. Len(got) : got[j] # stale[i] \/ TRUE
-RefusalRaises == (o.ph = "done" /\ ~respOk /\ left.resp = 0 /\ o.kind # "bringup") => outcome \in {"refused", "cancelled"}
+RefusalRaises == (o.ph = "done" /\ ~respOk /\ left.resp = 0 /\ o.kind # "bringup") => outcome \in {"refused", "cancelled", "timeout"}
 =============================================================================
